@@ -10,5 +10,5 @@ Extraction "model.ml"
   pexpr ptree utf8_decode cr_chars
   i_new intern read isort
   run_asm run_parse run_full export_sym export_nl rows_of z80_decode sm83_decode mos_decode dir_names z80_op_table z80_reg_table sm83_op_table sm83_reg_table mos_op_table mos_reg_table z80_op_names z80_reg_names z80_flag_names sm83_op_names sm83_reg_names sm83_flag_names mos_op_names mos_reg_names
-  run_main parse lex_all directive_of_id dir_table z80_flag_table sm83_flag_table
+  run_main parse lex_all lex_fault directive_of_id dir_table z80_flag_table sm83_flag_table
   z80_op_display z80_reg_display sm83_op_display sm83_reg_display mos_op_display mos_reg_display.
